@@ -258,8 +258,10 @@ type Peer struct {
 	RecordKey map[string]string          // key -> embedded key to use (mis-keyed records)
 	Providers map[string][]peer.AddrInfo // key -> providers it reports
 	// received messages that carry state
-	GotPuts  []*pb.Message
-	GotProvs []*pb.Message
+	// PutBehaviour: \"\" accepts PUT_VALUE / ADD_PROVIDER, \"fail\" resets, \"hang\" times out.
+	PutBehaviour string
+	GotPuts      []*pb.Message
+	GotProvs     []*pb.Message
 }
 
 // World describes the simulated network.
@@ -421,6 +423,11 @@ func (w *World) Answer(to peer.ID, m *pb.Message, proto string) (*pb.Message, er
 			resp.Record = MakeRecord(rk, v)
 		}
 	case pb.Message_PUT_VALUE:
+		if p.PutBehaviour == "fail" {
+			return nil, ErrSimRequest
+		} else if p.PutBehaviour == "hang" {
+			return nil, ErrSimTimeout
+		}
 		p.GotPuts = append(p.GotPuts, m)
 		resp.Record = m.GetRecord()
 	case pb.Message_GET_PROVIDERS:
@@ -429,6 +436,11 @@ func (w *World) Answer(to peer.ID, m *pb.Message, proto string) (*pb.Message, er
 			resp.ProviderPeers = pb.RawPeerInfosToPBPeers(provs)
 		}
 	case pb.Message_ADD_PROVIDER:
+		if p.PutBehaviour == "fail" {
+			return nil, ErrSimRequest
+		} else if p.PutBehaviour == "hang" {
+			return nil, ErrSimTimeout
+		}
 		p.GotProvs = append(p.GotProvs, m)
 		return nil, nil
 	}
